@@ -478,11 +478,43 @@ fn learned_word_part_then_entry(run: &Run) {
     run.require_label("entry-typed-on-a-learned-word-part", 300);
 }
 
+/// update-engine (idle) is in contract whatever happened to the optional user files in the meantime.  ALL sequences of
+/// three steps over the seven file / directory transitions of C10 (written, damaged, removed, put back untouched,
+/// directory away / back, modification time stepped backwards), update-engine after each step, probe words typed.
+/// Only panics count here (what the context shows afterwards is C10's and C11's business).
+fn update_engine_under_file_transitions(run: &Run) {
+    use crate::props::c10::{check_transitions, Trans};
+    let ts = [Trans::WriteAc(1), Trans::DamageAc(0), Trans::RemoveAc, Trans::RestoreAc, Trans::DirAway, Trans::DirBack, Trans::TouchOlder];
+    let mut items: Vec<(usize, usize, usize)> = vec![];
+    for a in 0..ts.len() {
+        for b in 0..ts.len() {
+            for c in 0..ts.len() {
+                items.push((a, b, c));
+            }
+        }
+    }
+    run.exhaustive(
+        "update-engine-under-user-file-transitions",
+        &items,
+        |_| (),
+        |&(a, b, c), st, _| {
+            let steps = vec![(ts[a].clone(), true), (ts[b].clone(), true), (ts[c].clone(), true)];
+            st.label("file-transition-sequences");
+            match check_transitions(&steps, (a + b + c) % 2 == 0, st) {
+                Err(f) if f.kind.contains("panic") => Err(f),
+                _ => Ok(()),
+            }
+        },
+    );
+    run.require_label("file-transition-sequences", 300);
+}
+
 pub fn run(run: &Run) {
     long_words(run);
     sweep(run);
     fixed_exhaustive(run);
     learned_word_part_then_entry(run);
+    update_engine_under_file_transitions(run);
     let (shards, cases) = match run.tier {
         Tier::Quick => (16, 700),
         Tier::Thorough => (16, 12000),
@@ -506,6 +538,12 @@ pub fn run(run: &Run) {
 
 pub fn replay(_run: &Run, case: &Value) -> Result<(), Failure> {
     let opts = Opts::parse(case["opts"].as_str().unwrap_or_default());
+    if case.get("transitions").is_some() {
+        return match crate::props::c10::replay(_run, case) {
+            Err(f) if f.kind.contains("panic") => Err(f),
+            _ => Ok(()),
+        };
+    }
     if let Some(w) = case["long_word"].as_str() {
         let sb = Sandbox::new();
         let ctx = Ctx::new(opts, &sb).map_err(|p| Failure::new(panic_kind(&p), p.to_string(), case.clone()))?;
